@@ -18,14 +18,14 @@ Proof. intros [z| | |]; cbn [fsum_eqb]; [apply Z.eqb_refl|reflexivity|reflexivit
 Lemma check_true : forall b t, b = true -> check b t = [].
 Proof. intros b t ->. reflexivity. Qed.
 
-(* when the comparison key the code uses is the value itself *)
+(* the comparison "boundary < value" the code makes is the exact comparison with the value *)
 Definition key_exact (k : kind) (s : Z) (xs : list Z) : Prop :=
-  forall v, In v xs -> o_key (ops_of k s) v = true_key k s v.
+  forall v, In v xs -> forall b, o_lt (ops_of k s) b v = (b <? true_key k s v).
 
 Lemma key_exact_dbl : forall s xs, key_exact KDbl s xs.
-Proof. intros s xs v _. reflexivity. Qed.
-Lemma key_exact_long : forall s xs, 0 <= s -> (forall v, In v xs -> Z.abs v <= 2 ^ 53) -> key_exact KLong s xs.
-Proof. intros s xs Hs H v Hv. cbn [ops_of long_ops o_key true_key]. apply long_key_exact; [exact Hs|apply H; exact Hv]. Qed.
+Proof. intros s xs v _ b. reflexivity. Qed.
+Lemma key_exact_long : forall s xs, 0 <= s -> (forall v, In v xs -> - 2 ^ 63 <= v < 2 ^ 63) -> key_exact KLong s xs.
+Proof. intros s xs Hs H v Hv b. cbn [ops_of long_ops o_lt true_key]. apply long_lt_exact; [exact Hs|apply H; exact Hv]. Qed.
 
 (* sentence 1 on the model: the counts are the ideal counts *)
 Lemma counts_are_ideal : forall k s c xs,
@@ -36,7 +36,8 @@ Proof.
   rewrite cf_counts_small by exact Hlen. unfold ideal_counts.
   apply map_ext_in. intros j Hj. apply in_seq in Hj.
   unfold cnt, bucket_count. f_equal. f_equal.
-  apply filter_ext_in. intros v Hv. unfold bkt. rewrite (Hk v Hv).
+  apply filter_ext_in. intros v Hv. unfold bkt.
+  rewrite (bucketp_ext (c_bounds c) _ (true_key k s v) (Hk v Hv)).
   symmetry. apply in_bucket_bucket; [exact Hs|lia].
 Qed.
 
@@ -56,7 +57,7 @@ Definition within_sentinels (k : kind) (s : Z) (xs : list Z) : Prop :=
 (* a point that agrees with the aggregation of xs on everything but possibly an inexact sum passes the check *)
 Lemma check_point_of_fields : forall k s c x xs h,
   sorted (c_bounds c) -> Z.of_nat (length xs) < U64 -> key_exact k s xs -> within_sentinels k s xs ->
-  x_minmax x = c_rmm c -> x_sum_tainted x = false ->
+  x_minmax x = c_rmm c -> x_basis x = xs ->
   set_sum h (SFin 0) = set_sum (agg (ops_of k s) c xs) (SFin 0) -> sum_ok k s xs h ->
   check_point k s (c_bounds c) x xs (point_of h) = [].
 Proof.
@@ -97,7 +98,7 @@ Qed.
 
 Theorem check_point_agg : forall k s c x xs,
   0 <= s -> sorted (c_bounds c) -> Z.of_nat (length xs) < U64 -> key_exact k s xs -> within_sentinels k s xs ->
-  x_minmax x = c_rmm c -> x_sum_tainted x = false ->
+  x_minmax x = c_rmm c -> x_basis x = xs ->
   check_point k s (c_bounds c) x xs (point_of (agg (ops_of k s) c xs)) = [].
 Proof.
   intros k s c x xs Hs0 Hs Hlen Hk Hw Hmm Ht.
@@ -108,7 +109,7 @@ Qed.
 Example check_point_agg_example :
   let c := mkC [10; 20] true in let xs := [10; 11; 20; 25; 0] in
   sorted (c_bounds c) /\ key_exact KDbl 0 xs /\ within_sentinels KDbl 0 xs /\
-  check_point KDbl 0 (c_bounds c) (mkX "agg" true false) xs (point_of (agg (ops_of KDbl 0) c xs)) = [] /\
+  check_point KDbl 0 (c_bounds c) (mkX "agg" true xs) xs (point_of (agg (ops_of KDbl 0) c xs)) = [] /\
   h_counts (agg (ops_of KDbl 0) c xs) = [2; 2; 1].
 Proof.
   cbn zeta. split; [|split; [apply key_exact_dbl|split]].
@@ -231,13 +232,4 @@ Proof.
   destruct k; cbn [ops_of long_ops dbl_ops o_defb o_defrmm].
   - rewrite Hnn by (vm_compute; reflexivity). rewrite Hl, Hrl. reflexivity.
   - rewrite Hnn by (vm_compute; reflexivity). rewrite Hd, Hrd. reflexivity.
-Qed.
-
-(* F8c: Diff does not compute the sum *)
-Theorem diff_sum_refuted_lemma :
-  exists o c xs ys, exact_add o /\
-    h_sum (diff o (agg o c xs) (merge o (agg o c xs) (agg o c ys))) <> h_sum (agg o c ys).
-Proof.
-  exists (long_ops 0), (mkC [] true), [3], [8]. split; [apply xadd_exact_long|].
-  rewrite (sum_is_sum_lemma (long_ops 0) _ [8] (xadd_exact_long 0)). cbn [diff h_sum]. discriminate.
 Qed.
